@@ -44,12 +44,30 @@ def raster_cases(draw):
     px = st.one_of(st.integers(lo, 40), st.integers(lo, 40), special) if isf else st.integers(lo, 40)
     img = draw(st.lists(st.lists(st.lists(px, min_size=W, max_size=W), min_size=H, max_size=H), min_size=nb, max_size=nb))
     nodata = draw(st.sampled_from(["omit", 0, 7, 40, -9999, 12345, "NaN", "inf", "-inf"]))
+    layout = None
+    if (nodata in (0, 7, 40) or (nodata == "NaN" and isf)) and draw(st.integers(0, 3)) == 0:
+        # every no-data sample sits in the first row / the first band / at the origin, nowhere else
+        layout = draw(st.sampled_from(["first-row", "first-band", "origin"]))
+        other = 1 if nodata != 1 else 2
+        cols = draw(st.lists(st.integers(0, W - 1), min_size=1, max_size=3))
+        for b in range(nb):
+            for r in range(H):
+                for c in range(W):
+                    if img[b][r][c] == nodata:
+                        img[b][r][c] = other
+        for b in range(nb):
+            if layout == "first-band" and b > 0:
+                continue
+            for c in ([0] if layout == "origin" else cols):
+                img[b][0 if layout != "first-band" else draw(st.integers(0, H - 1))][c] = nodata
     mask = None
-    if draw(st.booleans()):
+    if layout is None and draw(st.booleans()) or (layout is not None and draw(st.integers(0, 3)) == 0):
         mask = draw(st.lists(st.lists(st.sampled_from([0, 0, 0, 1, 2, 255, -1, -7]), min_size=W, max_size=W), min_size=H, max_size=H))
     dkind = draw(st.sampled_from(["list", "grid", "none"]))
     p = {"H": H, "W": W, "nb": nb, "dtype": dtype, "img": img, "nodata": nodata, "mask": mask, "dkind": dkind,
          "georef": draw(st.booleans()), "classif": draw(st.booleans()), "segm": draw(st.booleans())}
+    if layout:
+        p["nodata_layout"] = layout
     if dkind == "list":
         a = draw(st.integers(-9, 5))
         p["disp"] = [a, a + draw(st.integers(0, 9))]
@@ -223,6 +241,8 @@ def raster_body(ctx: Ctx, p: dict) -> None:
         ctx.violation("C16/classif-band-names-wrong", f"{list(ds.coords['band_classif'].data)}")
     ctx.judged += 1
     classes = [p["dtype"]]
+    if p.get("nodata_layout"):
+        classes.append("nodata-only-in-" + p["nodata_layout"])
     if roi:
         classes.append("roi")
     if special:
